@@ -20,7 +20,7 @@ func init() {
 		Rule:           "all strings <= 7 (quick 6) chars over {-,0,1,5,9,.,e,E,+}: the internal Number (via verif hook) must parse exactly the RFC 8259 numerals and agree with math/big on String, fractional length; all ordered pairs of numerals <= 4 (thorough 5) chars and every numeral against a probe set are compared with exact Cmp; API level (no hook): schemas `E // {min|max A [exclusive]}`, `{type:\"decimal\", precision:p}` and integer example x all numerals <= 5 (6) chars as documents, verdict == exact reference; structured long-numeral family (digit blocks up to 60 digits x exponents up to +-400) all pairs. Non-trivial = a distinct (rule, numeral) or (numeral, numeral) pair on which both reference and library were evaluated.",
 		Run:            run,
 		Replay:         replay,
-		QuickBudget:    80 * time.Second,
+		QuickBudget:    150 * time.Second,
 		ThoroughBudget: 12 * time.Minute,
 		Assumptions: []string{
 			"integer-ness of exponent-free numerals with an all-zero fraction (1.0) is not asserted",
